@@ -117,12 +117,15 @@ func replay(path string) {
 		Key      string   `json:"key"`
 		Artefact artefact `json:"artefact"`
 	}
-	if err := json.Unmarshal(b, &f); err != nil || f.Artefact.Case == nil {
+	if err := json.Unmarshal(b, &f); err != nil {
 		ev.InfraError("replay: cannot parse %s: %v", path, err)
 	}
-	if f.Artefact.Balancer == "kfake" || len(f.Artefact.Balancer) > 5 && f.Artefact.Balancer[:5] == "kfake" {
-		fmt.Println("kfake artefact: replayed by the in-package harness (run.sh forwards VERIF_REPLAY)")
+	if strings.HasPrefix(f.Artefact.Balancer, "kfake") {
+		fmt.Println("(kfake artefact: replayed by the in-package harness above)")
 		return
+	}
+	if f.Artefact.Case == nil {
+		ev.InfraError("replay: %s holds no case", path)
 	}
 	bal, ok := balancers[f.Artefact.Balancer]
 	if !ok {
@@ -278,7 +281,7 @@ func main() {
 	r.Set("bound_completed", map[string]any{
 		"range_roundrobin":   fmt.Sprintf("members<=%d, topics<=2 with 1..%d partitions (+1 nonexistent topic), all subscription vectors incl. one special member, dynamic and static(reversed) IDs", sb.maxMembers, sb.maxPer),
 		"range_racks":        fmt.Sprintf("members<=%d on {none,ra,rb}^n, topics<=2 with 1..%d partitions, leaders on {ra,rb}^P", sb.rackMembers, sb.rackPer),
-		"sticky_cooperative": fmt.Sprintf("members<=%d; full prior sweep: total partitions<=%d (<=%d at %d members); special-member sweep: <=%d; rack sweep (2 racks, all placements): <=%d; topics<=2 with 1..3 partitions; count-map insertion orders: %s", st.MaxMembers, st.FullTotal, st.FullTotalAtMax, st.MaxMembers, st.SpecialTotal, st.RacksTotal, map[int]string{0: "one per input, alternating", 1: "one", 2: "both for every input"}[st.Orders]),
+		"sticky_cooperative": fmt.Sprintf("members<=%d; full prior sweep: total partitions<=%d (<=%d at %d members); special-member sweep: <=%d; rack sweep (2 racks, all placements): <=%d; topics<=2 with 1..3 partitions; count-map insertion orders: %s", st.MaxMembers, st.FullTotal, st.FullTotalAtMax, st.MaxMembers, st.SpecialTotal, st.RacksTotal, map[int]string{0: "one per input, alternating", 1: "one", 2: "both for every input (alternating at 6 partitions)"}[st.Orders]),
 	})
 
 	balenum.TuneGC(256 << 20)
